@@ -685,3 +685,294 @@ pub fn client_options_view(o: &MqttClientOptions) -> VClientOptions {
         max_interrupted_retries: o.max_interrupted_retries,
     }
 }
+
+// ------------------------------------------------------------------------------------------------
+// Engine: the crate-private sans-IO protocol state machine behind neutral types and a virtual clock
+// ------------------------------------------------------------------------------------------------
+
+pub use crate::protocol::verif_protocol::{OpView, Snapshot, VSettings};
+pub use crate::protocol::verif_protocol::settings_view;
+
+use std::sync::{Arc, Mutex};
+use std::time::Instant;
+
+#[derive(Clone, Copy, Debug, PartialEq, Eq, Hash)]
+pub enum ResolverKind {
+    /// no resolver configured (engine default)
+    Unset,
+    Null,
+    Manual,
+    Lru(u16),
+}
+
+#[derive(Clone, Debug)]
+pub struct EngineConfig {
+    pub connect: ConnectOptions,
+    pub offline: OfflineQueuePolicy,
+    pub ping_timeout: Duration,
+    pub resolver: ResolverKind,
+    pub mqtt311: bool,
+    pub one_at_a_time_drain: bool,
+    pub max_interrupted_retries: Option<u32>,
+}
+
+/// Successful completion payload of a user operation.
+#[derive(Clone, Debug, PartialEq, Eq, Hash, PartialOrd, Ord)]
+pub enum AckV {
+    Qos0,
+    Puback(VAck),
+    Pubrec(VAck),
+    Pubcomp(VAck),
+    Suback(VMultiAck),
+    Unsuback(VMultiAck),
+}
+
+#[derive(Clone, Debug, PartialEq, Eq, Hash, PartialOrd, Ord)]
+pub struct Completion {
+    pub tag: u32,
+    pub result: Result<AckV, ErrKind>,
+}
+
+/// One call made by the engine to the outbound alias resolver (recorded by a pass-through wrapper;
+/// the wrapped resolver is the crate's own).
+#[derive(Clone, Debug, PartialEq, Eq, Hash, PartialOrd, Ord)]
+pub enum ResolverCall {
+    Reset(u16),
+    Resolve { alias: Option<u16>, topic: String, skip_topic: bool, resolved_alias: Option<u16> },
+}
+
+struct RecordingResolver {
+    inner: Box<dyn OutboundAliasResolver + Send>,
+    log: Arc<Mutex<Vec<ResolverCall>>>,
+}
+
+impl OutboundAliasResolver for RecordingResolver {
+    fn reset_for_new_connection(&mut self, max_aliases: u16) {
+        self.log.lock().unwrap().push(ResolverCall::Reset(max_aliases));
+        self.inner.reset_for_new_connection(max_aliases);
+    }
+
+    fn resolve_and_apply_topic_alias(&mut self, alias: &Option<u16>, topic: &str) -> OutboundAliasResolution {
+        let resolution = self.inner.resolve_and_apply_topic_alias(alias, topic);
+        self.log.lock().unwrap().push(ResolverCall::Resolve { alias: *alias, topic: topic.to_string(), skip_topic: resolution.skip_topic, resolved_alias: resolution.alias });
+        resolution
+    }
+}
+
+pub struct Engine {
+    state: ProtocolState,
+    base: Instant,
+    completions: Arc<Mutex<Vec<Completion>>>,
+    resolver_log: Arc<Mutex<Vec<ResolverCall>>>,
+}
+
+fn ack_of_publish_response(response: PublishResponse) -> AckV {
+    match response {
+        PublishResponse::Qos0 => AckV::Qos0,
+        PublishResponse::Qos1(puback) => AckV::Puback(puback_out(&puback)),
+        PublishResponse::Qos2(Qos2Response::Pubrec(pubrec)) => AckV::Pubrec(pubrec_out(&pubrec)),
+        PublishResponse::Qos2(Qos2Response::Pubcomp(pubcomp)) => AckV::Pubcomp(pubcomp_out(&pubcomp)),
+    }
+}
+
+impl Engine {
+    pub fn new(config: EngineConfig) -> Engine {
+        let resolver_log = Arc::new(Mutex::new(Vec::new()));
+        let inner: Option<Box<dyn OutboundAliasResolver + Send>> =
+            match config.resolver {
+                ResolverKind::Unset => None,
+                ResolverKind::Null => Some((OutboundAliasResolverFactory::new_null_factory())()),
+                ResolverKind::Manual => Some((OutboundAliasResolverFactory::new_manual_factory())()),
+                ResolverKind::Lru(size) => Some((OutboundAliasResolverFactory::new_lru_factory(size))()),
+            };
+        let outbound_alias_resolver: Option<Box<dyn OutboundAliasResolver + Send>> =
+            inner.map(|inner| { let boxed: Box<dyn OutboundAliasResolver + Send> = Box::new(RecordingResolver { inner, log: resolver_log.clone() }); boxed });
+
+        let base = Instant::now();
+        let state_config = ProtocolStateConfig {
+            connect_options: config.connect,
+            base_timestamp: base,
+            offline_queue_policy: config.offline,
+            ping_timeout: config.ping_timeout,
+            outbound_alias_resolver,
+            protocol_mode: if config.mqtt311 { ProtocolMode::Mqtt311 } else { ProtocolMode::Mqtt5 },
+            post_reconnect_queue_drain_policy: if config.one_at_a_time_drain { PostReconnectQueueDrainPolicy::OneAtATime } else { PostReconnectQueueDrainPolicy::None },
+            max_interrupted_retries: config.max_interrupted_retries,
+        };
+
+        Engine {
+            state: ProtocolState::new(state_config),
+            base,
+            completions: Arc::new(Mutex::new(Vec::new())),
+            resolver_log,
+        }
+    }
+
+    fn at(&self, now_ms: u64) -> Instant {
+        self.base + Duration::from_millis(now_ms)
+    }
+
+    /// Submit a publish / subscribe / unsubscribe exactly as the client implementation does
+    /// (`handle_user_event`).  No submission-time validation happens here: that is done by the
+    /// public client handles before an operation reaches the engine (see `validate_submission`).
+    /// Returns the operation id the engine assigned.
+    pub fn submit(&mut self, now_ms: u64, tag: u32, packet: &Pkt, ack_timeout: Option<Duration>) -> Result<u64, ErrKind> {
+        let mqtt_packet = Box::new(pkt_in(packet)?);
+        let operation_id = self.state.next_operation_id;
+        let log = self.completions.clone();
+        let event =
+            match &*mqtt_packet {
+                MqttPacket::Publish(_) => {
+                    let mut builder = PublishOptions::builder();
+                    if let Some(timeout) = ack_timeout { builder = builder.with_ack_timeout(timeout); }
+                    let handler: ResponseHandler<PublishResult> = Box::new(move |result: PublishResult| {
+                        log.lock().unwrap().push(Completion { tag, result: match result { Ok(response) => Ok(ack_of_publish_response(response)), Err(error) => Err(err_kind(&error)) } });
+                        Ok(())
+                    });
+                    UserEvent::Publish(mqtt_packet, PublishOptionsInternal { options: builder.build(), response_handler: Some(handler) })
+                }
+                MqttPacket::Subscribe(_) => {
+                    let mut builder = SubscribeOptions::builder();
+                    if let Some(timeout) = ack_timeout { builder = builder.with_ack_timeout(timeout); }
+                    let handler: ResponseHandler<SubscribeResult> = Box::new(move |result: SubscribeResult| {
+                        log.lock().unwrap().push(Completion { tag, result: match result { Ok(suback) => Ok(AckV::Suback(suback_out(&suback))), Err(error) => Err(err_kind(&error)) } });
+                        Ok(())
+                    });
+                    UserEvent::Subscribe(mqtt_packet, SubscribeOptionsInternal { options: builder.build(), response_handler: Some(handler) })
+                }
+                MqttPacket::Unsubscribe(_) => {
+                    let mut builder = UnsubscribeOptions::builder();
+                    if let Some(timeout) = ack_timeout { builder = builder.with_ack_timeout(timeout); }
+                    let handler: ResponseHandler<UnsubscribeResult> = Box::new(move |result: UnsubscribeResult| {
+                        log.lock().unwrap().push(Completion { tag, result: match result { Ok(unsuback) => Ok(AckV::Unsuback(unsuback_out(&unsuback))), Err(error) => Err(err_kind(&error)) } });
+                        Ok(())
+                    });
+                    UserEvent::Unsubscribe(mqtt_packet, UnsubscribeOptionsInternal { options: builder.build(), response_handler: Some(handler) })
+                }
+                _ => { return Err(ErrKind::Unrepresentable); }
+            };
+
+        let current_time = self.at(now_ms);
+        self.state.handle_user_event(UserEventContext { event, current_time });
+        Ok(operation_id)
+    }
+
+    /// Submit a user DISCONNECT (what `stop` with a disconnect packet does).
+    pub fn submit_disconnect(&mut self, now_ms: u64, packet: &VDisconnect) -> Result<u64, ErrKind> {
+        let disconnect = disconnect_in(packet)?;
+        let operation_id = self.state.next_operation_id;
+        let current_time = self.at(now_ms);
+        self.state.handle_user_event(UserEventContext { event: UserEvent::Disconnect(Box::new(MqttPacket::Disconnect(disconnect))), current_time });
+        Ok(operation_id)
+    }
+
+    fn network_event(&mut self, now_ms: u64, event: NetworkEvent) -> (Result<(), ErrKind>, Vec<Pkt>) {
+        let mut packet_events = VecDeque::new();
+        let current_time = self.at(now_ms);
+        let result = {
+            let mut context = NetworkEventContext { event, current_time, packet_events: &mut packet_events };
+            self.state.handle_network_event(&mut context)
+        };
+
+        let surfaced = packet_events.iter().map(|event| {
+            match event {
+                PacketEvent::Connack(connack) => Pkt::Connack(connack_out(connack)),
+                PacketEvent::Publish(publish) => Pkt::Publish(publish_out(publish)),
+                PacketEvent::Disconnect(disconnect) => Pkt::Disconnect(disconnect_out(disconnect)),
+            }
+        }).collect();
+
+        (result.map_err(|e| err_kind(&e)), surfaced)
+    }
+
+    pub fn open(&mut self, now_ms: u64, establishment_deadline_ms: u64) -> Result<(), ErrKind> {
+        let establishment_timeout = self.at(establishment_deadline_ms);
+        self.network_event(now_ms, NetworkEvent::ConnectionOpened(ConnectionOpenedContext { establishment_timeout })).0
+    }
+
+    pub fn close(&mut self, now_ms: u64) -> Result<(), ErrKind> {
+        self.network_event(now_ms, NetworkEvent::ConnectionClosed).0
+    }
+
+    /// Returns the entry point's result and the packet events it surfaced (CONNACK, PUBLISH, DISCONNECT).
+    pub fn incoming(&mut self, now_ms: u64, bytes: &[u8]) -> (Result<(), ErrKind>, Vec<Pkt>) {
+        self.network_event(now_ms, NetworkEvent::IncomingData(bytes))
+    }
+
+    pub fn write_complete(&mut self, now_ms: u64) -> Result<(), ErrKind> {
+        self.network_event(now_ms, NetworkEvent::WriteCompletion).0
+    }
+
+    /// `service` appends to `to_socket` (a vector whose capacity the caller fixed, exactly like the
+    /// drivers' outbound buffer).
+    pub fn service(&mut self, now_ms: u64, to_socket: &mut Vec<u8>) -> Result<(), ErrKind> {
+        let current_time = self.at(now_ms);
+        let mut context = ServiceContext { to_socket, current_time };
+        self.state.service(&mut context).map_err(|e| err_kind(&e))
+    }
+
+    /// Next service time in ms on the virtual clock (may lie in the past).
+    pub fn next_service_ms(&mut self, now_ms: u64) -> Option<u64> {
+        let current_time = self.at(now_ms);
+        self.state.get_next_service_timepoint(&current_time).map(|timepoint| {
+            if timepoint >= self.base { (timepoint - self.base).as_millis() as u64 } else { 0 }
+        })
+    }
+
+    pub fn reset(&mut self, now_ms: u64) {
+        let current_time = self.at(now_ms);
+        self.state.reset(&current_time);
+    }
+
+    pub fn take_completions(&mut self) -> Vec<Completion> {
+        std::mem::take(&mut *self.completions.lock().unwrap())
+    }
+
+    pub fn take_resolver_calls(&mut self) -> Vec<ResolverCall> {
+        std::mem::take(&mut *self.resolver_log.lock().unwrap())
+    }
+
+    pub fn snapshot(&self, now_ms: u64) -> Snapshot {
+        crate::protocol::verif_protocol::snapshot(&self.state, &self.at(now_ms))
+    }
+
+    /// 0 Disconnected, 1 PendingConnack, 2 Connected, 3 PendingDisconnect, 4 Halted
+    pub fn state(&self) -> u8 {
+        crate::protocol::verif_protocol::state_of(&self.state)
+    }
+
+    pub fn set_next_packet_id(&mut self, value: u16) {
+        crate::protocol::verif_protocol::set_next_packet_id(&mut self.state, value);
+    }
+
+    pub fn inbound_aliases(&self) -> Vec<(u16, String)> {
+        crate::alias::verif_inbound_aliases(&self.state.inbound_alias_resolver)
+    }
+}
+
+/// The in-place sort the engine applies to its intake queues at CONNACK.
+pub fn sort_deque(operations: &mut VecDeque<u64>) {
+    crate::protocol::verif_protocol::sort_deque(operations);
+}
+
+/// `build_negotiated_settings` for a given CONNECT options / CONNACK pair.
+pub fn negotiate(connect: &ConnectOptions, connack: &VConnack, existing_client_id: Option<String>) -> Result<VSettings, ErrKind> {
+    let config = ProtocolStateConfig {
+        connect_options: connect.clone(),
+        base_timestamp: Instant::now(),
+        offline_queue_policy: OfflineQueuePolicy::PreserveAll,
+        ping_timeout: Duration::from_secs(30),
+        outbound_alias_resolver: None,
+        protocol_mode: ProtocolMode::Mqtt5,
+        post_reconnect_queue_drain_policy: PostReconnectQueueDrainPolicy::None,
+        max_interrupted_retries: None,
+    };
+    let existing = existing_client_id.map(|client_id| NegotiatedSettings { client_id, ..Default::default() });
+    let connack_packet = connack_in(connack)?;
+    Ok(settings_view(&crate::protocol::verif_protocol::negotiate(&config, &connack_packet, &existing)))
+}
+
+/// `does_packet_pass_offline_queue_policy`
+pub fn passes_offline_policy(packet: &Pkt, policy: OfflineQueuePolicy) -> Result<bool, ErrKind> {
+    Ok(crate::protocol::verif_protocol::passes_offline_policy(&pkt_in(packet)?, &policy))
+}
